@@ -1,6 +1,7 @@
 package main
 
 import (
+	"bytes"
 	"errors"
 	"os"
 	"path/filepath"
@@ -46,10 +47,23 @@ type tblOpts struct {
 	BloomN    uint64  `json:"bloom_n"`
 	BloomP    float64 `json:"bloom_p"`
 	WBuf      int     `json:"wbuf"`
+	Rev       bool    `json:"rev,omitempty"` // keys are ordered by the reverse of the bytewise order
+}
+
+// revBytesCmp: a comparator whose order differs from the bytewise one everywhere
+type revBytesCmp struct{}
+
+func (revBytesCmp) Compare(a, b []byte) int { return bytes.Compare(b, a) }
+
+func keyCmpFor(rev bool) skiplist.Comparator[[]byte] {
+	if rev {
+		return revBytesCmp{}
+	}
+	return skiplist.BytesComparator{}
 }
 
 func (o tblOpts) writerOptions(dir string) []sstables.WriterOption {
-	return []sstables.WriterOption{sstables.WriteBasePath(dir), sstables.WithKeyComparator(skiplist.BytesComparator{}),
+	return []sstables.WriterOption{sstables.WriteBasePath(dir), sstables.WithKeyComparator(keyCmpFor(o.Rev)),
 		sstables.IndexCompressionType(o.IndexComp), sstables.DataCompressionType(o.DataComp),
 		sstables.BloomExpectedNumberOfElements(o.BloomN), sstables.BloomFalsePositiveProbability(o.BloomP),
 		sstables.WriteBufferSizeBytes(o.WBuf)}
